@@ -83,6 +83,122 @@ Proof.
     rewrite Z2Pos.id in H by exact Hp. exact H.
 Qed.
 
+(* ---- the two exponent ranges decided without computing the power ---- *)
+Lemma fexp64_FLT : forall e, SpecFloat.fexp 53 1024 e = FLT_exp (-1074) 53 e.
+Proof. reflexivity. Qed.
+
+Lemma rnd64_tiny : forall x, (Rabs x < bpow radix2 (-1075))%R -> rnd64 x = 0%R.
+Proof.
+  intros x Hx. destruct (Req_dec x 0) as [->|Hn].
+  { unfold rnd64. apply round_0. apply valid_rnd_N. }
+  destruct (mag radix2 x) as [ex Hex]. specialize (Hex Hn).
+  unfold rnd64. apply (round_N_small radix2 (SpecFloat.fexp 53 1024) (fun t => negb (Z.even t)) x ex Hex).
+  assert (Hlt : (ex - 1 < -1075)%Z).
+  { apply (lt_bpow radix2). eapply Rle_lt_trans; [apply Hex | exact Hx]. }
+  unfold SpecFloat.fexp, SpecFloat.emin. lia.
+Qed.
+
+Lemma rnd64_huge : forall x, (bpow radix2 1024 <= Rabs x)%R -> (bpow radix2 1024 <= Rabs (rnd64 x))%R.
+Proof.
+  intros x Hx. unfold rnd64.
+  assert (HE : Exists_NE radix2 (SpecFloat.fexp 53 1024)).
+  { change (SpecFloat.fexp 53 1024) with (FLT_exp (-1074) 53). apply exists_NE_FLT. right. lia. }
+  assert (HV : Valid_exp (SpecFloat.fexp 53 1024)) by (apply (BinarySingleNaN.fexp_correct 53 1024); reflexivity).
+  rewrite <- (round_NE_abs radix2 (SpecFloat.fexp 53 1024)).
+  apply round_ge_generic; auto with typeclass_instances.
+  apply generic_format_bpow. unfold SpecFloat.fexp, SpecFloat.emin. lia.
+Qed.
+
+Lemma pow2_le_pow10 : 2 ^ 33219 <= 10 ^ 10000.
+Proof. vm_compute. discriminate. Qed.
+
+Lemma pow10_ge_pow2_1024 : 2 ^ 1024 <= 10 ^ 310.
+Proof. vm_compute. discriminate. Qed.
+
+(* 33219 k >= 10000 n  ->  2^n <= 10^k   (log2 10 > 3.3219) *)
+Lemma pow2_le_pow10_scaled : forall n k, 0 <= n -> 0 <= k -> 10000 * n <= 33219 * k -> 2 ^ n <= 10 ^ k.
+Proof.
+  intros n k Hn Hk H. apply Z.nlt_ge. intros Hlt.
+  assert (H1 : (10 ^ k) ^ 10000 < (2 ^ n) ^ 10000).
+  { apply Z.pow_lt_mono_l; [lia|]. split; [apply Z.pow_nonneg; lia | exact Hlt]. }
+  assert (H2 : (2 ^ n) ^ 10000 <= (10 ^ k) ^ 10000).
+  { rewrite <- !Z.pow_mul_r by lia.
+    apply Z.le_trans with (2 ^ (33219 * k)).
+    - apply Z.pow_le_mono_r; lia.
+    - rewrite Z.pow_mul_r by lia. rewrite (Z.mul_comm k 10000), Z.pow_mul_r by lia.
+      apply Z.pow_le_mono_l. split; [apply Z.pow_nonneg; lia | exact pow2_le_pow10]. }
+  lia.
+Qed.
+
+Lemma Rabs_IZR_cond_Zopp : forall neg z, Rabs (IZR (cond_Zopp neg z)) = IZR (Z.abs z).
+Proof. intros neg z. rewrite <- abs_IZR. destruct neg; cbn [cond_Zopp]; [rewrite Z.abs_opp|]; reflexivity. Qed.
+
+Lemma dec_real_overflow : forall neg p e10, 310 <= e10 ->
+  (bpow radix2 1024 <= Rabs (dec_real neg p e10))%R.
+Proof.
+  intros neg p e10 He. unfold dec_real. replace (0 <=? e10) with true by (symmetry; apply Z.leb_le; lia).
+  rewrite Rabs_IZR_cond_Zopp. rewrite <- (IZR_Zpower radix2) by lia. apply IZR_le.
+  change (Zpower radix2 1024) with (2 ^ 1024).
+  assert (H10 : 10 ^ 310 <= 10 ^ e10) by (apply Z.pow_le_mono_r; lia).
+  pose proof pow10_ge_pow2_1024. rewrite Z.abs_eq by (apply Z.mul_nonneg_nonneg; [lia | apply Z.pow_nonneg; lia]).
+  assert (1 * 10 ^ e10 <= Z.pos p * 10 ^ e10) by (apply Z.mul_le_mono_nonneg_r; [apply Z.pow_nonneg|]; lia).
+  lia.
+Qed.
+
+Lemma dec_real_underflow : forall neg p e10,
+  10000 * (Z.log2 (Zpos p) + 1) + 33219 * e10 <= -10750000 ->
+  (Rabs (dec_real neg p e10) < bpow radix2 (-1075))%R.
+Proof.
+  intros neg p e10 H.
+  pose proof (Z.log2_nonneg (Zpos p)) as Hl.
+  assert (He : e10 < 0) by lia.
+  unfold dec_real. replace (0 <=? e10) with false by (symmetry; apply Z.leb_gt; lia).
+  set (k := - e10). set (b := Z.log2 (Zpos p) + 1).
+  assert (Hpb : Zpos p < 2 ^ b).
+  { unfold b. destruct (Z.log2_spec (Zpos p)) as [_ Hs]; [lia|]. rewrite <- Z.add_1_r in Hs. exact Hs. }
+  assert (Hpow : 2 ^ (b + 1075) <= 10 ^ k) by (apply pow2_le_pow10_scaled; unfold b, k; lia).
+  assert (Hk : 0 < 10 ^ k) by (apply Z.pow_pos_nonneg; unfold k; lia).
+  unfold Rdiv. rewrite Rabs_mult, Rabs_IZR_cond_Zopp. cbn [Z.abs].
+  rewrite Rabs_inv. rewrite Rabs_pos_eq by (apply IZR_le; lia).
+  replace (bpow radix2 (-1075)) with (/ bpow radix2 1075)%R by (symmetry; exact (bpow_opp radix2 1075)).
+  rewrite <- (IZR_Zpower radix2 1075) by lia. change (Zpower radix2 1075) with (2 ^ 1075).
+  assert (H2 : (0 < IZR (2 ^ 1075))%R) by (apply IZR_lt; apply Z.pow_pos_nonneg; lia).
+  assert (H10 : (0 < IZR (10 ^ k))%R) by (apply IZR_lt; exact Hk).
+  apply (Rmult_lt_reg_r (IZR (10 ^ k))); [exact H10|].
+  rewrite Rmult_assoc, Rinv_l, Rmult_1_r by lra.
+  apply (Rmult_lt_reg_l (IZR (2 ^ 1075))); [exact H2|].
+  rewrite <- Rmult_assoc, Rinv_r, Rmult_1_l by lra.
+  rewrite <- mult_IZR. apply IZR_lt.
+  rewrite Z.pow_add_r in Hpow by (unfold b; lia).
+  assert (2 ^ 1075 * Z.pos p < 2 ^ 1075 * 2 ^ b) by (apply Z.mul_lt_mono_pos_l; [apply Z.pow_pos_nonneg; lia | exact Hpb]).
+  lia.
+Qed.
+
+(* the conversion is the IEEE-754 rounding of the decimal number, for every
+   mantissa and every exponent *)
+Theorem f64_of_decimal_total : forall neg p e10,
+  let x := dec_real neg p e10 in
+  if Rlt_bool (Rabs (rnd64 x)) (bpow radix2 1024) then
+    Binary.B2R 53 1024 (f64_of_decimal neg (Npos p) e10) = rnd64 x /\
+    Binary.is_finite 53 1024 (f64_of_decimal neg (Npos p) e10) = true
+  else f64_of_decimal neg (Npos p) e10 = Binary.B754_infinity 53 1024 neg.
+Proof.
+  intros neg p e10 x.
+  destruct (Z_lt_le_dec e10 310) as [H310|H310].
+  - destruct (Z_le_gt_dec (10000 * (Z.log2 (Zpos p) + 1) + 33219 * e10) (-10750000)) as [Hs|Hs].
+    + (* below 2^-1075: rounds to zero *)
+      pose proof (rnd64_tiny x (dec_real_underflow neg p e10 Hs)) as H0. rewrite H0, Rabs_R0.
+      rewrite Rlt_bool_true by apply bpow_gt_0.
+      unfold f64_of_decimal. replace (310 <=? e10) with false by (symmetry; apply Z.leb_gt; lia).
+      replace (10000 * (Z.log2 (Z.pos p) + 1) + 33219 * e10 <=? -10750000) with true by (symmetry; apply Z.leb_le; lia).
+      split; reflexivity.
+    + apply f64_of_decimal_correct; lia.
+  - (* at least 10^310: overflows *)
+    pose proof (rnd64_huge x (dec_real_overflow neg p e10 H310)) as Hh.
+    rewrite Rlt_bool_false by exact Hh.
+    unfold f64_of_decimal. replace (310 <=? e10) with true by (symmetry; apply Z.leb_le; lia). reflexivity.
+Qed.
+
 (* zero mantissa *)
 Lemma f64_of_decimal_zero : forall neg e10,
   f64_of_decimal neg N0 e10 = Binary.B754_zero 53 1024 neg.
